@@ -19,3 +19,37 @@ Print Assumptions C03_roundtrip.
 Theorem C03_tree_determines : forall t k, build sha256 t = Ok k -> k_tree k = t.
 Proof. exact (build_tree sha256). Qed.
 Print Assumptions C03_tree_determines.
+
+(* ---- last clause: the bytes, hex-text and base64-text forms of one serialisation parse alike ---- *)
+From PTQ Require Import Model.Address Proofs.BocForms.
+
+(* Boc.__init__ reads bytes.hex() text back as the same bytes *)
+Theorem C03_hex_norm : forall b, bytes_ok b -> boc_normalize (InStr (hex_text b)) = Ok b.
+Proof. exact hex_norm. Qed.
+Print Assumptions C03_hex_norm.
+
+(* Boc.__init__ reads base64.b64encode text of anything that starts with one of the three magics back as
+   the same bytes (bytes.fromhex raises within the first two characters "te" / "aP" / "rM", and the
+   non-validating base64 decoder inverts the encoder for every length) *)
+Theorem C03_b64_norm : forall m r,
+  In m [boc_magic; boc_magic_idx; boc_magic_idx_crc] -> bytes_ok r ->
+  boc_normalize (InStr (b64_text (m ++ r))) = Ok (m ++ r).
+Proof. exact b64_norm_magic. Qed.
+Print Assumptions C03_b64_norm.
+
+(* whatever to_boc emits, as bytes, as hex text or as base64 text, is normalised to the same bytes; the Cell
+   entry point returns the cell that was serialised, the Slice and Builder entry points its bits and
+   references (for an ordinary root the Builder conversion succeeds) *)
+Theorem C03_forms : forall t k idx crc cache,
+  build sha256 t = Ok k -> boc_wf t = true -> no_collision k -> implb cache idx = true ->
+  N.of_nat (length (order k)) < 2 ^ 24 ->
+  exists d, to_boc k idx crc cache = Ok d /\ k_tree k = t /\
+    (forall x, In x [InBytes d; InStr (hex_text d); InStr (b64_text d)] ->
+       boc_normalize x = Ok d /\
+       one_from_boc_in sha256 x = Ok k /\
+       slice_one_from_boc_in sha256 x = Ok (k_bits k, k_refs k) /\
+       builder_one_from_boc_in sha256 x = cell_to_builder k) /\
+    (let 'Cell ty bits _ := t in
+     ty = ty_ordinary -> cell_to_builder k = Ok (bits, k_refs k)).
+Proof. exact (boc_forms sha256). Qed.
+Print Assumptions C03_forms.
